@@ -110,6 +110,7 @@ pub fn cells(tier: Tier) -> Vec<CellPlan> {
         Op::MapPre(0, 3),
         Op::MapPrePredicted(0, 4),
         Op::Rm(4, TB),
+        Op::MapPreSameId(0, 2),
         Op::DespawnPre(0, 1),
         Op::Mut(1, TA),
         Op::Ins(1, TB),
